@@ -53,78 +53,106 @@ def _present(t: Term, table: Term, k: Term) -> Term:
 
 
 def _helpers(ctx: Ctx, c: Collector) -> None:
-    """merge_all / merge_existing by cases on key membership (iteration over .items(), over the dict or
-    its keys, `in` tests and the get-with-sentinel idiom are the same thing)."""
+    """merge_all / merge_existing by cases on key membership.  Every store into `target` is judged in the loop
+    it stands in (over `other` or over `target`, by items, keys or the dict itself; `in` tests and the
+    get-with-sentinel idiom are the same); which of several alternative loops runs (walk the smaller dict) and
+    an up-front `update` into an empty target do not matter as long as each of them is right."""
     from .. import boolfn
-    # merge_all: every key of `other`: target[k] = merger(target[k], other[k]) if k in target else other[k]
-    fi = ctx.func(MERGE_ALL)
-    s = ctx.summ(MERGE_ALL)
-    merger, target, other = (T.var(p) for p in fi.params[:3])
-    st = s.of_kind("store")
-    pr = []
-    loops = [_dict_loop(e.iters[0]) if len(e.iters) == 1 else None for e in st]
-    ok_iter = bool(st) and all(l is not None and l[0] == other for l in loops) and all(e.term[1][0] == "idx" and e.term[1][1] == target for e in st)
-    if not ok_iter:
-        pr.append("does not visit every entry of `other` storing into `target`")
-    else:
-        _, k, sub = loops[0]
-        IN = ("cmp", "in", k, target)
-        try:
-            for present in (True, False):
-                fired = [e for e in st if boolfn.guards_hold_leaves(e.guards, {IN: present})]
-                if len(fired) != 1 or fired[0].term[1] != ("idx", target, k):
-                    pr.append(f"a key {'present on both sides' if present else 'only present in `other`'} is stored {len(fired)} times / under another key")
-                    continue
-                val = T.replace(unalias(boolfn.resolve_phi(fired[0].term[2], {IN: present}), s, fi), sub)
-                if present:
-                    val = _present(val, target, k)
-                if present and val != call(merger, ("idx", target, k), ("idx", other, k)):
-                    pr.append("a key present on both sides is not combined as merger(target[k], other[k])")
-                if not present and val != ("idx", other, k):
-                    pr.append("a key only present in `other` is not added to `target`")
-        except boolfn.NotBoolean as ex:
-            pr.append(f"condition not understood: {ex}")
-    if not s.returns or s.returns[-1].term != target:
-        pr.append("does not return `target`")
-    c.add("helper", MERGE_ALL, "adds missing keys, merges common ones (existing first)", VIOLATED if pr else DISCHARGED, "; ".join(pr), fi.loc)
-    # merge_existing: every key of `target` that `other` has too: target[k] = merger(target[k], other[k])
-    fi = ctx.func(MERGE_EX)
-    s = ctx.summ(MERGE_EX)
-    merger, target, other = (T.var(p) for p in fi.params[:3])
-    st = s.of_kind("store")
-    pr = []
-    loop = _dict_loop(st[0].iters[0]) if len(st) == 1 and len(st[0].iters) == 1 else None
-    if loop is None or loop[0] != target:
-        # iterating `other` and testing `k in target` visits the same keys
-        if loop is not None and loop[0] == other:
-            _, k, sub = loop
-            IN_T = ("cmp", "in", k, target)
+
+    def judge_store(s, fi, e, merger, target, other, adds_missing: bool) -> List[str]:
+        pr: List[str] = []
+        loop = _dict_loop(e.iters[-1]) if e.iters else None
+        if loop is None or loop[0] not in (target, other) or e.term[1][0] != "idx" or e.term[1][1] != target:
+            return ["a store into `target` that is not inside a loop over the keys of one of the two dicts"]
+        table, k, sub = loop
+        if e.term[1] != ("idx", target, k):
+            return ["a value is stored under another key than the one it was found under"]
+        IN_T, IN_O = ("cmp", "in", k, target), ("cmp", "in", k, other)
+        rows = [(True, True), (True, False)] if table == target else [(True, True), (False, True)]
+        # conditions that choose between alternative loops (sizes of the dicts, emptiness) are free
+        def free(t):
+            t = T.strip(t)
+            if any(x[0] == "call" and x[1] == T.glob("len") for x in T.subterms((t,))) or t in (target, other, ("not", target), ("not", other)):
+                return True
+            return None
+        import itertools as _it
+        free_leaves = []
+        for g in e.guards:
+            for l in boolfn.leaves(g[1]):
+                if free(l) and l not in free_leaves and l not in (IN_T, IN_O):
+                    free_leaves.append(l)
+        for in_t, in_o in rows:
             try:
-                if boolfn.guards_hold_leaves(st[0].guards, {IN_T: False}):
-                    pr.append("a key that only `other` has is added to `target`")
-                val = _present(T.replace(unalias(st[0].term[2], s, fi), sub), target, k)
-                if st[0].term[1] != ("idx", target, k) or val != call(merger, ("idx", target, k), ("idx", other, k)):
-                    pr.append("existing keys are not combined as merger(target[k], other[k])")
+                fires = any(boolfn.guards_hold_leaves(e.guards, dict({IN_T: in_t, IN_O: in_o}, **{}) | dict(zip(free_leaves, vals)))
+                            for vals in _it.product([False, True], repeat=len(free_leaves)))
             except boolfn.NotBoolean as ex:
-                pr.append(f"condition not understood: {ex}")
+                return [f"condition not understood: {ex}"]
+            val = T.replace(unalias(boolfn.resolve_phi(e.term[2], {IN_T: in_t, IN_O: in_o}, free), s, fi), sub)
+            if in_t:
+                val = _present(val, target, k)
+            if in_o:
+                val = _present(val, other, k)
+            if in_t and in_o:
+                if not fires and not any(x is not e and x.iters == e.iters for x in s.of_kind("store")):
+                    pr.append("a key present on both sides is not merged")
+                elif fires and val != call(merger, ("idx", target, k), ("idx", other, k)):
+                    pr.append("a key present on both sides is not combined as merger(target[k], other[k])")
+            elif in_t and not in_o:
+                if fires:
+                    pr.append("an existing key is overwritten although `other` has no value for it")
+            else:
+                if adds_missing and fires and val != ("idx", other, k):
+                    pr.append("a key only present in `other` is not added to `target` with other's value")
+                if not adds_missing and fires:
+                    pr.append("a key that only `other` has is added to `target`")
+        return pr
+
+    for qn, adds_missing, label in ((MERGE_ALL, True, "adds missing keys, merges common ones (existing first)"), (MERGE_EX, False, "never adds a key, merges common ones (existing first)")):
+        fi = ctx.func(qn)
+        s = ctx.summ(qn)
+        merger, target, other = (T.var(p) for p in fi.params[:3])
+        st = [e for e in s.of_kind("store") if T.contains((e.term[1],), target)]
+        pr: List[str] = []
+        if not st:
+            pr.append("nothing is ever stored into `target`")
+        for e in st:
+            pr += judge_store(s, fi, e, merger, target, other, adds_missing)
+        if adds_missing:
+            # every key of `other` is visited by some loop over `other` that covers both cases
+            over_other = [e for e in st if e.iters and _dict_loop(e.iters[-1]) is not None and _dict_loop(e.iters[-1])[0] == other]
+            if st and not over_other:
+                pr.append("does not visit every entry of `other` storing into `target`")
+            else:
+                try:
+                    for loopkey in {e.iters for e in over_other}:
+                        grp = [e for e in over_other if e.iters == loopkey]
+                        k = _dict_loop(grp[0].iters[-1])[1]
+                        for present in (True, False):
+                            def fires_some(e):
+                                fl = []
+                                for g in e.guards:
+                                    for l in boolfn.leaves(g[1]):
+                                        if (any(x[0] == "call" and x[1] == T.glob("len") for x in T.subterms((l,))) or T.strip(l) in (target, other)) and l not in fl:
+                                            fl.append(l)
+                                import itertools as _it
+                                return any(boolfn.guards_hold_leaves(e.guards, {("cmp", "in", k, target): present, ("cmp", "in", k, other): True} | dict(zip(fl, vals))) for vals in _it.product([False, True], repeat=len(fl)))
+                            n = sum(1 for e in grp if fires_some(e))
+                            if n != 1:
+                                pr.append(f"a key {'present on both sides' if present else 'only present in `other`'} is stored {n} times")
+                except boolfn.NotBoolean as ex:
+                    pr.append(f"condition not understood: {ex}")
+            # `target.update(other)` is only the same thing when target is empty
+            for e in s.of_kind("call"):
+                if e.term[1] == ("attr", target, "update"):
+                    if e.term[2] != (other,) or ("not", target) not in guard_terms(e.guards):
+                        pr.append("target.update(...) overwrites existing values without calling the merger (only harmless when target is empty)")
         else:
-            pr.append("does not iterate the keys of `target` only (a key of `other` could be added)")
-    else:
-        _, k, sub = loop
-        IN_O = ("cmp", "in", k, other)
-        try:
-            if boolfn.guards_hold_leaves(st[0].guards, {IN_O: False}):
-                pr.append("an existing key is overwritten although `other` has no value for it")
-            if not boolfn.guards_hold_leaves(st[0].guards, {IN_O: True}):
-                pr.append("a key present on both sides is not merged")
-        except boolfn.NotBoolean as ex:
-            pr.append(f"condition not understood: {ex}")
-        val = _present(T.replace(unalias(st[0].term[2], s, fi), sub), other, k)
-        if st[0].term[1] != ("idx", target, k) or val != call(merger, ("idx", target, k), ("idx", other, k)):
-            pr.append("existing keys are not combined as merger(target[k], other[k])")
-    if not s.returns or s.returns[-1].term != target:
-        pr.append("does not return `target`")
-    c.add("helper", MERGE_EX, "never adds a key, merges common ones (existing first)", VIOLATED if pr else DISCHARGED, "; ".join(pr), fi.loc)
+            for e in s.of_kind("call"):
+                if e.term[1][0] == "attr" and e.term[1][1] == target and e.term[1][2] in ("update", "setdefault"):
+                    pr.append(f"target.{e.term[1][2]}() can add keys that only `other` has")
+        if not s.returns or any(r.term != target for r in s.returns):
+            pr.append("does not return `target`")
+        c.add("helper", qn, label, VIOLATED if pr else DISCHARGED, "; ".join(sorted(set(pr))), fi.loc)
 
 
 def _merge_levels(t: Term) -> Optional[Tuple[List[str], Term, Term, Optional[Term]]]:
